@@ -155,9 +155,19 @@ class LOC(dns.rdata.Rdata):
         self.altitude = float(altitude)
         if self.altitude < -10000000.0 or self.altitude > 4284967295.0:
             raise ValueError("altitude out of range")
-        self.size = float(size)
-        self.horizontal_precision = float(hprec)
-        self.vertical_precision = float(vprec)
+        # Sizes are stored with one significant digit on the wire; keep the value
+        # that will actually be encoded so that text and wire forms agree.
+        self.size = float(_decode_size(_encode_size(size, "size"), "size"))
+        self.horizontal_precision = float(
+            _decode_size(
+                _encode_size(hprec, "horizontal precision"), "horizontal precision"
+            )
+        )
+        self.vertical_precision = float(
+            _decode_size(
+                _encode_size(vprec, "vertical precision"), "vertical precision"
+            )
+        )
 
     def to_styled_text(self, style: dns.rdata.RdataStyle):
         if self.latitude[4] > 0:
